@@ -106,8 +106,8 @@ impl Property for C16 {
     }
     fn runs(&self, tier: Tier) -> u64 {
         match tier {
-            Tier::Quick => 20_000,
-            Tier::Thorough => 1_000_000,
+            Tier::Quick => 100_000,
+            Tier::Thorough => 2_000_000,
         }
     }
     fn rule(&self) -> &'static str {
@@ -699,8 +699,8 @@ impl Property for C20 {
     }
     fn runs(&self, tier: Tier) -> u64 {
         match tier {
-            Tier::Quick => 30_000,
-            Tier::Thorough => 1_500_000,
+            Tier::Quick => 200_000,
+            Tier::Thorough => 4_000_000,
         }
     }
     fn rule(&self) -> &'static str {
